@@ -130,6 +130,9 @@ class Interp:
             if ln is not _MISSING:
                 return self.truth(self.call(ln, [], {}, node), node)
             return True
+        if type(v).__name__ == "SSet":
+            # a symbolic set is true iff it is not empty
+            return self.ctx.branch(z3.Not(v.term == z3.EmptySet(v.term.sort().domain())))
         if isinstance(v, (SCls, BoundMethod, Closure)):
             return True
         if isinstance(v, SFmt):
